@@ -246,23 +246,61 @@ Definition twins_eqb (a b : twins) : bool :=
   Bool.eqb (w_create_handle a) (w_create_handle b) && tri_eqb (w_create_wb a) (w_create_wb b) &&
   tri_eqb (w_create_killpriv a) (w_create_killpriv b) && tri_eqb (w_setattr_killpriv a) (w_setattr_killpriv b).
 
+(* further entry points that consult the same switches, probed with a handle no OPEN ever returned:
+   FLUSH (ENOSYS in no-open mode), GETATTR(Some h) / FSYNC(h) / READDIR(h) (handle mode: the unknown handle is
+   refused; no-open / no-opendir mode: the handle is ignored and the request served from the inode) and
+   WRITE with WRITE_KILL_PRIV (CAP_FSETID dropped around the write only with the kill-priv switch).
+   [Some true] = the handle-less path was taken / the setuid bit was cleared; [None] = not observable. *)
+Record hpaths := mkH {
+  h_flush : uprobe; h_getattr : option bool; h_fsync : option bool; h_readdir : option bool;
+  h_write_kp : option bool
+}.
+
+(* PassthroughFs: flush() tests no_open; do_getattr() uses the handle only when !no_open; fsync()/write() go through
+   get_data() (no_open), readdir() through get_dirdata() (no_opendir); write() tests killpriv_v2 *)
+Definition pt_hpaths (t : toggles) : hpaths :=
+  mkH (if t_no_open t then UEnosys else UOk) (Some (t_no_open t)) (Some (t_no_open t)) (Some (t_no_opendir t))
+      (Some (t_killpriv_v2 t)).
+
+(* OverlayFs: flush() tests no_open; getattr() and do_readdir() fall back to the inode for an unknown handle in
+   either mode (not observable); fsync()/write() go through get_data(): handle mode = ENOENT for an unknown handle,
+   no-open mode = the layer is called with real handle 0, which the layer (never initialised, handle mode) refuses
+   with EBADF -- so a write in no-open mode fails and its kill-priv effect is not observable; in handle mode the
+   write reaches the layer, whose kill-priv switch is never set *)
+Definition ovl_hpaths (t : toggles) : hpaths :=
+  mkH (if t_no_open t then UEnosys else UOk) None (Some (t_no_open t)) None
+      (if t_no_open t then None else Some false).
+
+(* Vfs: all five are forwarded to the backend; when the Vfs itself answered OPEN with ENOSYS while its backend is
+   in handle mode (configured out_opts without ZERO_MESSAGE_OPEN), handle 0 reaches a backend that never opened
+   anything: FLUSH and WRITE fail there *)
+Definition vfs_hpaths (s : vstate) (t : toggles) : hpaths :=
+  let h := pt_hpaths t in
+  let orphan := vfs_open_enosys s && negb (t_no_open t) in
+  mkH (match h_flush h with UOk => if vfs_open_enosys s then UOther else UOk | x => x end)
+      (h_getattr h) (h_fsync h) (h_readdir h) (if orphan then None else h_write_kp h).
+
+Definition hpaths_eqb (a b : hpaths) : bool :=
+  uprobe_eqb (h_flush a) (h_flush b) && tri_eqb (h_getattr a) (h_getattr b) && tri_eqb (h_fsync a) (h_fsync b) &&
+  tri_eqb (h_readdir a) (h_readdir b) && tri_eqb (h_write_kp a) (h_write_kp b).
+
 (* PassthroughFs puts FUSE_ATTR_DAX on an entry only if dax_file_size is configured and the file is at least
    that large; [dax_applies] says whether that holds for the probed file *)
 Definition pt_behaviour_d (dax_applies : bool) (c : lcfg) (t : toggles) : behaviour :=
   mkB (t_no_open t) (t_no_opendir t) (t_writeback t) (t_killpriv_v2 t) (t_perfile_dax t && dax_applies).
 
 Record round := mkR { r_init : ires; r_open : probe; r_opendir : probe;
-                      r_wb : option bool; r_kp : option bool; r_dax : bool; r_twins : twins }.
+                      r_wb : option bool; r_kp : option bool; r_dax : bool; r_twins : twins; r_hpaths : hpaths }.
 Definition ires_eqb (a b : ires) : bool :=
   match a, b with IErr x, IErr y | IOk x, IOk y => x =? y | _, _ => false end.
 Definition round_eqb (a b : round) : bool :=
   ires_eqb (r_init a) (r_init b) && probe_eqb (r_open a) (r_open b) && probe_eqb (r_opendir a) (r_opendir b) &&
   tri_eqb (r_wb a) (r_wb b) && tri_eqb (r_kp a) (r_kp b) && Bool.eqb (r_dax a) (r_dax b) &&
-  twins_eqb (r_twins a) (r_twins b).
+  twins_eqb (r_twins a) (r_twins b) && hpaths_eqb (r_hpaths a) (r_hpaths b).
 
-Definition round_of (out : ires) (b : behaviour) (w : twins) : round :=
+Definition round_of (out : ires) (b : behaviour) (w : twins) (h : hpaths) : round :=
   mkR out (probe_of (b_open_enosys b)) (probe_of (b_opendir_enosys b))
-      (tri (negb (b_open_enosys b)) (b_writeback_flags b)) (tri (negb (b_open_enosys b)) (b_killpriv b)) (b_dax b) w.
+      (tri (negb (b_open_enosys b)) (b_writeback_flags b)) (tri (negb (b_open_enosys b)) (b_killpriv b)) (b_dax b) w h.
 
 (* (first round, answer of the repeated init, second round).
    ord = false:  init(cap1); probes; init(cap1) [repeated]; destroy; init(cap2); probes
@@ -275,8 +313,8 @@ Definition pt_case (ord dax_applies : bool) (p : cache_policy) (c0 : lcfg) (cap1
   let '(o2, t2) := pt_init c tm cap2 in
   let '(or2, tr2) := pt_init c t2 cap2 in
   let te := if ord then tr2 else t2 in
-  (round_of (IOk o1) (pt_behaviour_d dax_applies c t1) (pt_twins t1), IOk (if ord then or2 else or1),
-   round_of (IOk o2) (pt_behaviour_d dax_applies c te) (pt_twins te)).
+  (round_of (IOk o1) (pt_behaviour_d dax_applies c t1) (pt_twins t1) (pt_hpaths t1), IOk (if ord then or2 else or1),
+   round_of (IOk o2) (pt_behaviour_d dax_applies c te) (pt_twins te) (pt_hpaths te)).
 
 Definition ovl_case (ord : bool) (c : lcfg) (cap1 cap2 : N) : round * ires * round :=
   let '(o1, t1) := ovl_init c (layer_destroy toggles_off) cap1 in
@@ -285,8 +323,8 @@ Definition ovl_case (ord : bool) (c : lcfg) (cap1 cap2 : N) : round * ires * rou
   let '(o2, t2) := ovl_init c tm cap2 in
   let '(or2, tr2) := ovl_init c t2 cap2 in
   let te := if ord then tr2 else t2 in
-  (round_of (IOk o1) (ovl_behaviour c t1) (ovl_twins t1), IOk (if ord then or2 else or1),
-   round_of (IOk o2) (ovl_behaviour c te) (ovl_twins te)).
+  (round_of (IOk o1) (ovl_behaviour c t1) (ovl_twins t1) (ovl_hpaths t1), IOk (if ord then or2 else or1),
+   round_of (IOk o2) (ovl_behaviour c te) (ovl_twins te) (ovl_hpaths te)).
 
 (* a Vfs with one PassthroughFs backend (do_import = false, all switches off, cache=always) at "/".  Whether the
    backend is mounted before the first INIT (Vfs::init initialises it) or after it (Vfs::mount initialises it
@@ -306,8 +344,8 @@ Definition vfs_case (ord : bool) (s0 : vstate) (cap1 cap2 : N) : round * ires * 
   let '(r2, s2) := vfs_init sd cap2 [None] in
   let '(rr2, sr2) := vfs_init s2 cap2 [None] in
   let se := if ord then sr2 else s2 in
-  (round_of r1 (vfs_behaviour s1 (pt_behaviour under_vfs t1)) (vfs_twins s1 t1), if ord then rr2 else rr1,
-   round_of r2 (vfs_behaviour se (pt_behaviour under_vfs t2)) (vfs_twins se t2)).
+  (round_of r1 (vfs_behaviour s1 (pt_behaviour under_vfs t1)) (vfs_twins s1 t1) (vfs_hpaths s1 t1), if ord then rr2 else rr1,
+   round_of r2 (vfs_behaviour se (pt_behaviour under_vfs t2)) (vfs_twins se t2) (vfs_hpaths se t2)).
 
 (* the same Vfs with a second backend whose init fails (EIO) during the first INIT: the passthrough backend (first
    superblock) is initialised, the new options are stored, the Vfs stays uninitialised; the next INIT is accepted.
@@ -320,8 +358,8 @@ Definition vfs_fail_case (s0 : vstate) (cap1 cap2 : N) : round * ires * round :=
   let sd := vfs_destroy sr in
   let '(ob2, t2) := pt_init under_vfs (layer_destroy tr) (vfs_backend_word sd cap2) in
   let '(r2, s2) := vfs_init sd cap2 [None; None] in
-  (round_of r1 (vfs_behaviour s1 (pt_behaviour under_vfs t1)) (vfs_twins s1 t1), rr,
-   round_of r2 (vfs_behaviour s2 (pt_behaviour under_vfs t2)) (vfs_twins s2 t2)).
+  (round_of r1 (vfs_behaviour s1 (pt_behaviour under_vfs t1)) (vfs_twins s1 t1) (vfs_hpaths s1 t1), rr,
+   round_of r2 (vfs_behaviour s2 (pt_behaviour under_vfs t2)) (vfs_twins s2 t2) (vfs_hpaths s2 t2)).
 
 Definition case_eqb (a b : round * ires * round) : bool :=
   let '(a1, ar, a2) := a in let '(b1, br, b2) := b in
